@@ -128,6 +128,24 @@ def extreme_rows(rng, case, mode=None):
     return case
 
 
+def neginf_arcs(rng, case):
+    """impossible attachments: log(0) = -inf is a log-probability; a derivation that needs such an arc still exists
+    (its score is -inf) and every derivation that avoids them is ranked as usual. Every row keeps a finite entry: a row of
+    -inf only is not a distribution (and is outside what parsing.h handles: its argmax returns -1, see DESIGN 8.3)"""
+    out = []
+    p = rng.choice((0.1, 0.3, 0.6, 1.0))
+    for words, tag, dep in case['sentences']:
+        dep = dep.copy()
+        mask = np.array([[rng.random() < p for _ in range(dep.shape[1])] for _ in range(dep.shape[0])])
+        for i in range(dep.shape[0]):
+            if mask[i].all():
+                mask[i, rng.randrange(dep.shape[1])] = False     # a row of log-probabilities has at least one finite entry
+        dep[mask] = -np.inf
+        out.append((words, tag, dep))
+    case['sentences'] = out
+    return case
+
+
 def gen_case(rng, n_sent=1, nbest=None, family=None, max_n=6, sparse=False, head_left=None, beam=False, mixed_heads=False,
              many_cats=False):
     ntags = rng.randint(2, 6)
